@@ -64,7 +64,7 @@ def build_corpus(rep, seed, n_grammars, max_units, bits_share=0.15, bytes_share=
         if gen.count_derivations(g, 8 if g["flavour"] == "bits" else max_units) > 2500:
             continue        # keeps the exhaustive enumeration of the corpus small (a corpus choice, not an oracle)
         grammars[gid] = g
-    for g in (extra or []) + (mixed_grammars() if bytes_share > 0 else []) + (assertion_grammars() if regex_ok else []):
+    for g in (extra or []) + (mixed_grammars() if bytes_share > 0 else []) + (assertion_grammars() if regex_ok else []) + counted_nullable_grammars():
         gid += 1
         grammars[gid] = g
     # grammars in which a named empty-deriving symbol is expected at several places (same input position included)
@@ -140,6 +140,21 @@ def assertion_grammars():
               gen.cat(T("x"), R("ab", 1, 2, 4)),                                       # ^[ab]{1,2} in the middle of the input
               gen.cat(gen.rep(T("-"), 0, 1), R("ab", 1, 2, 2), T(";"))]                # \b[ab]{1,2} after an optional non-word character
     return [{"start": "<start>", "rules": {"<start>": b}, "flavour": "text", "computed": 0} for b in bodies]
+
+
+def counted_nullable_grammars():
+    """counted repetitions {n}, {n,m} (n >= 2) over bodies that can be empty: words that need two or more adjacent empty
+    iterations"""
+    T = gen.lit_text
+    opt = lambda x: gen.rep(x, 0, 1)     # noqa
+    bodies = [gen.cat(gen.rep(opt(T("a")), 2, 3), T("c")),
+              gen.cat(gen.rep(T("a"), 2, 2), gen.rep(opt(T("b")), 2, 2)),
+              gen.cat(T("<"), gen.rep(gen.nt("<o>"), 3, 3), T(">")),
+              gen.cat(T("["), gen.rep(gen.cat(opt(T("+")), opt(T("f"))), 2, 2), T("]"))]
+    out = []
+    for b in bodies:
+        out.append({"start": "<start>", "rules": {"<start>": b, "<o>": gen.alt(T(""), T("y"))}, "flavour": "text", "computed": 0})
+    return out
 
 
 def mixed_grammars():
